@@ -128,6 +128,18 @@ def created_iso(us):
     return us_to_dt(us).isoformat()
 
 
+def _scribble_json(d):
+    """the client edits, at every depth, a dict it has just passed to the store"""
+    if isinstance(d, dict):
+        for v in list(d.values()):
+            _scribble_json(v)
+        d["scribbled"] = True
+    elif isinstance(d, list):
+        for v in d:
+            _scribble_json(v)
+        d.append("scribbled")
+
+
 class Runner:
     """runs a history on a real backend, resolving id references"""
 
@@ -218,9 +230,12 @@ class Runner:
             try:
                 if k == "create":
                     m = op[2]
-                    ds.create_bucket(op[1], m["type"], m["client"], m["hostname"],
-                                     created=us_to_dt(m["created_us"], m.get("created_off", 0)), name=m.get("name"),
-                                     data=json.loads(m["data"]) if m.get("data") is not None else None)
+                    d0 = json.loads(m["data"]) if m.get("data") is not None else None
+                    try:
+                        ds.create_bucket(op[1], m["type"], m["client"], m["hostname"],
+                                         created=us_to_dt(m["created_us"], m.get("created_off", 0)), name=m.get("name"), data=d0)
+                    finally:
+                        _scribble_json(d0)  # the caller goes on using its own dict
                     out = ["ok"]
                 elif k == "create_bad":
                     # a creation the store must reject (and leave no trace of): the creation time is not a datetime,
@@ -238,7 +253,10 @@ class Runner:
                         kw["data"] = json.loads(kw["data"])
                     if "type" in kw:
                         kw["type_id"] = kw.pop("type")
-                    ds.update_bucket(op[1], **kw)
+                    try:
+                        ds.update_bucket(op[1], **kw)
+                    finally:
+                        _scribble_json(kw.get("data"))
                     out = ["ok"]
                 elif k == "delbucket":
                     ds.delete_bucket(op[1])
